@@ -187,8 +187,16 @@ func pickExprDoc(r *gen.Rng) (exprs []string, doc DocSpec, src string) {
 		for i := 0; i < n; i++ {
 			exprs = append(exprs, typedExprs[r.Intn(len(typedExprs))])
 		}
-		return exprs, DocSpec{Kind: "typed", Name: typedDocNames[r.Intn(len(typedDocNames))]}, "typed"
+		return exprs, DocSpec{Kind: "typed", Name: typedDocNames[r.Intn(len(typedDocNames))], CapSeed: typedSeed(r)}, "typed"
 	}
+}
+
+// typedSeed: 0/1 = the small fixed typed documents, otherwise seeded sizes.
+func typedSeed(r *gen.Rng) uint64 {
+	if r.Chance(1, 3) {
+		return 1
+	}
+	return r.Next() | 2
 }
 
 func opKind(r *gen.Rng, expr string) string {
@@ -251,7 +259,7 @@ func genC06(master uint64, idx int) *Workload {
 	return w
 }
 
-var c12Modes = []string{"shared-expr-shared-doc", "shared-expr-private-docs", "diff-exprs-one-doc", "compile-same", "compile-diff", "compile-vs-search", "oneshot-mix", "parse-mix"}
+var c12Modes = []string{"shared-expr-shared-doc", "shared-expr-private-docs", "diff-exprs-one-doc", "compile-same", "compile-diff", "compile-vs-search", "oneshot-mix", "parse-mix", "many-exprs"}
 
 func genC12(master uint64, idx int) *Workload {
 	r := &gen.Rng{S: simrt.Mix(master, uint64(idx))}
@@ -276,6 +284,9 @@ func genC12(master uint64, idx int) *Workload {
 	} else {
 		w.Exprs, d, src = pickExprDoc(r)
 		w.Mode = c12Modes[r.Intn(len(c12Modes))]
+		if w.Mode == "many-exprs" && r.Chance(1, 2) {
+			w.Mode = c12Modes[r.Intn(len(c12Modes)-1)] // long runs: half the weight
+		}
 	}
 	_ = src
 	nc := 2 + r.Intn(3)
@@ -351,6 +362,40 @@ func genC12(master uint64, idx int) *Workload {
 			var ops []Op
 			for o := nops(); o > 0; o-- {
 				ops = append(ops, Op{Kind: "oneshot", Expr: r.Intn(len(w.Exprs)), Doc: 0})
+			}
+			w.Clients = append(w.Clients, ops)
+		}
+	case "many-exprs":
+		// dozens of distinct cheap expressions in circulation (bounded caches with
+		// eviction, interning tables): 3-4 clients x 10-14 operations
+		w.Docs = []DocSpec{d}
+		n := 34 + r.Intn(30)
+		if r.Chance(1, 4) {
+			n = 10 + r.Intn(20) // small caches
+		}
+		for i := 0; len(w.Exprs) < n; i++ {
+			switch r.Intn(5) {
+			case 0:
+				w.Exprs = append(w.Exprs, fmt.Sprintf("`%d`", i))
+			case 1:
+				w.Exprs = append(w.Exprs, fmt.Sprintf("nums[%d]", i-5))
+			case 2:
+				w.Exprs = append(w.Exprs, fmt.Sprintf("objs[%d].k", i-3))
+			case 3:
+				w.Exprs = append(w.Exprs, fmt.Sprintf("'s%d'", i))
+			default:
+				w.Exprs = append(w.Exprs, fmt.Sprintf("[`%d`, length(strs)]", i))
+			}
+		}
+		nc = 3 + r.Intn(2)
+		for c := 0; c < nc; c++ {
+			var ops []Op
+			for o := 24 + r.Intn(24); o > 0; o-- {
+				k := "oneshot"
+				if r.Chance(1, 8) {
+					k = "compile_search"
+				}
+				ops = append(ops, Op{Kind: k, Expr: r.Intn(len(w.Exprs)), Doc: 0})
 			}
 			w.Clients = append(w.Clients, ops)
 		}
@@ -607,7 +652,9 @@ func schedWorker(prop, tier string, master uint64, from, to int, maxWall time.Du
 			ws = []*Workload{genC12(master, idx)}
 		}
 		for _, w := range ws {
+			progressRun(idx)
 			rep := runSched(w)
+			progressPhase(3)
 			accountRun(st, w, rep, seen)
 			if perRun {
 				st.DigestPerRun = append(st.DigestPerRun, simrt.Mix(rep.Out.Digest, outcomeDigest(rep)^uint64(rep.RaceDelta)))
@@ -811,7 +858,7 @@ func doReplay(path string) int {
 	}
 	attempts := 1
 	if rp.Class == "race" || rp.Class == "doc-race" {
-		attempts = 3 // sync.Pool inside fmt/encoding/json drops items at random under -race, which can add or remove a happens-before edge
+		attempts = 10 // sync.Pool inside fmt/encoding/json drops items at random under -race, which can add or remove a happens-before edge
 	}
 	for a := 0; a < attempts; a++ {
 		var vs []Violation
